@@ -55,26 +55,84 @@ Definition bad_burst_mask (cases : list (N * (nat * Z * list ((Z * Z) * bool)) *
 Definition run_offset (x : float * list float) : list Z := map (offset_repaired (fst x)) (snd x).
 Definition bad_offset := report run_offset (list_eqb Z.eqb).
 
+(* ------------------------------------------------------------------------------------------ *)
+(* the window selection of the summary: limit_df(df, fs, start = xlim[0], stop = xlim[1]) keeps a cycle iff the time
+   stamps of its first and last sample lie within the limits (Model/Window.v keep_row, as repaired: sample / fs compared
+   with the limits).  lim = (fs, start, stop); None = no x-limits *)
+Definition view_rows {V} (lim : option (float * float * float)) (rows : list (srow * V)) : list (srow * V) :=
+  match lim with
+  | None => rows
+  | Some (fs, a, b) => filter (keep_row fs (Some a) (Some b)) rows
+  end.
+(* before the repair (Legacy): sample indices compared with start*fs, stop*fs *)
+Definition view_rows_legacy {V} (lim : option (float * float * float)) (rows : list (srow * V)) : list (srow * V) :=
+  match lim with
+  | None => rows
+  | Some (fs, a, b) => filter (keep_row_legacy fs (Some a) (Some b)) rows
+  end.
+
+(* np.unique(np.append(last, next)): the side extrema of a table, sorted, each once *)
+Fixpoint zinsert (x : Z) (l : list Z) : list Z :=
+  match l with
+  | [] => [x]
+  | y :: t => if (x <? y)%Z then x :: l else if (x =? y)%Z then l else y :: zinsert x t
+  end.
+Definition zunique (l : list Z) : list Z := fold_right zinsert [] l.
+Definition side_extrema (rows : list srow) : list Z := zunique (map s_last rows ++ map s_next rows).
+
+From Coq Require Import String.   (* after everything that uses List.length *)
+
+(* the threshold dictionary of the summary, in insertion order: (key, value).  One panel per key other than
+   min_n_cycles, in dictionary order; the threshold line of a panel is the value stored under that panel's key *)
+Definition threshold_of (given : list (string * float)) (k : string) : option float :=
+  option_map snd (find (fun kv => String.eqb (fst kv) k) given).
+Definition panel_keys (given : list (string * float)) : list string :=
+  filter (fun k => negb (String.eqb k "min_n_cycles")) (map fst given).
+Definition summary_panels (given : list (string * float)) : list (string * option float) :=
+  map (fun k => (k, threshold_of given k)) (panel_keys given).
+(* Bycycle(thresholds = ...) renames a key written in shorthand (`monotonicity` for `monotonicity_threshold`) by
+   pop + re-insert, which moves it behind the keys written in full.  Entries: ((full key, written in shorthand), value) *)
+Definition object_thresholds (user : list (string * bool * float)) : list (string * float) :=
+  map (fun e => (fst (fst e), snd e)) (filter (fun e => negb (snd (fst e))) user ++ filter (fun e => snd (fst e)) user).
+Definition function_thresholds (user : list (string * bool * float)) : list (string * float) :=
+  map (fun e => (fst (fst e), snd e)) user.
+
 (* the burst summary as a whole (plot_burst_detect_summary / Bycycle.plot): highlighted samples, the two
-   extrema marker series of the window-limited table, and one point list per parameter panel.
-   rows: ((centre, last, next), is_burst) of the window-limited table; cpts / spts: its centre and
-   side extrema; cols: one value column per panel, row-aligned with rows. *)
-Definition mk_prow (x : (Z * Z * Z) * bool) : srow * bool :=
-  let '((c, l, nx), b) := x in (Build_srow c l nx 0 0 0, b).
-Definition summ_in := (nat * Z * list ((Z * Z * Z) * bool) * list Z * list Z * bool * list (list float))%type.
-Definition summ_out := (barr * (list Z * list Z) * list (list (Z * float)))%type.
-Definition run_summary (x : summ_in) : list bool * (list Z * list Z) * list (list (Z * float)) :=
-  let '(n, off, rows, cpts, spts, interp, cols) := x in
-  let rs := map mk_prow rows in
-  (burst_mask n off rs,
-   (markers off n off cpts, markers off n off spts),
-   map (fun col => let rv := combine (map fst rs) col in
-                   if interp then panel_interp n off rv else panel_steps n off rv) cols).
+   extrema marker series of the window-limited table, and per parameter panel the threshold line and the point list.
+   rows: ((centre, last, next), is_burst, values) of the WHOLE table, values in the order of colnames (the
+   threshold keys whose columns they are); lim: the x-limits; user: the thresholds as written by the caller;
+   via_object: through Bycycle(...).plot.  Markers on the first sample of the view are left out on both sides
+   (their selection depends on a float product the property does not constrain). *)
+Definition summ_row := ((Z * Z * Z) * bool * list float)%type.
+Definition mk_vrow (x : summ_row) : srow * (bool * list float) :=
+  let '((c, l, nx), b, vs) := x in (Build_srow c l nx 0 0 0, (b, vs)).
+Fixpoint index_of_str (k : string) (l : list string) : nat :=
+  match l with [] => O | x :: t => if String.eqb x k then O else S (index_of_str k t) end.
+Definition summ_in := (nat * Z * option (float * float * float) * list string * list summ_row * bool * bool * bool
+                       * list (string * bool * float))%type.
+Definition summ_out := (barr * (list Z * list Z) * list (option float * list (Z * float)))%type.
+Definition run_summary (x : summ_in) : list bool * (list Z * list Z) * list (option float * list (Z * float)) :=
+  let '(n, off, lim, colnames, rows, interp, with_panels, via_object, user) := x in
+  let kept := view_rows lim (map mk_vrow rows) in
+  let lab := map (fun r => (fst r, fst (snd r))) kept in
+  let drop0 := filter (fun p => negb (p =? off)%Z) in
+  let given := if via_object then object_thresholds user else function_thresholds user in
+  (burst_mask n off lab,
+   (markers off n off (drop0 (map (fun r => s_center (fst r)) kept)),
+    markers off n off (drop0 (side_extrema (map fst kept)))),
+   if with_panels
+   then map (fun kt => let i := index_of_str (fst kt) colnames in
+                       let rv := map (fun r => (fst r, nth i (snd (snd r)) nan)) kept in
+                       (snd kt, if interp then panel_interp n off rv else panel_steps n off rv))
+            (summary_panels given)
+   else []).
 Definition zf_eqb (a b : Z * float) : bool := Z.eqb (fst a) (fst b) && fexact (snd a) (snd b).
-Definition summary_eqb (got : list bool * (list Z * list Z) * list (list (Z * float))) (want : summ_out) : bool :=
+Definition panel_eqb (a b : option float * list (Z * float)) : bool :=
+  option_eqb fexact (fst a) (fst b) && list_eqb zf_eqb (snd a) (snd b).
+Definition summary_eqb (got : list bool * (list Z * list Z) * list (option float * list (Z * float))) (want : summ_out) : bool :=
   let '(m, (p, t), ps) := got in
   let '(wm, (wp, wt), wps) := want in
-  eq_barr m wm && list_eqb Z.eqb p wp && list_eqb Z.eqb t wt && list_eqb (list_eqb zf_eqb) ps wps.
+  eq_barr m wm && list_eqb Z.eqb p wp && list_eqb Z.eqb t wt && list_eqb panel_eqb ps wps.
 Definition bad_summary (cases : list (N * summ_in * summ_out)) : N * list N :=
-  (N.of_nat (length cases),
+  (N.of_nat (List.length cases),
    map (fun c => fst (fst c)) (filter (fun c => negb (summary_eqb (run_summary (snd (fst c))) (snd c))) cases)).
